@@ -224,6 +224,16 @@ def elimColinear (col3 : Nat → Nat → Nat → Bool) (order : List Nat → Opt
   removalLoop (fun cands _ => order cands) (fun _ _ _ _ => false) (colAt col3)
     (removalFuel eligible m) eligible m
 
+/-- `EliminateColinear` with the slip "re-check the neighbours against the ORIGINAL mesh `m`"
+(`vertexNormalDifference(m, c)` instead of `(res, c)`): a vertex keeps its initial status however
+much the outline has bent in the meantime.  Only used to show that
+`eliminate_colinear_bridges_meet_criterion` separates it from the code as it is. -/
+def elimColinearStale (col3 : Nat → Nat → Nat → Bool) (order : List Nat → Option Nat) (m : List Seg) :
+    Option (List Seg) :=
+  let eligible := (segVerts m).filter (colAt col3 m)
+  removalLoop (fun cands _ => order cands) (fun _ _ _ _ => false) (fun _ c => colAt col3 m c)
+    (removalFuel eligible m) eligible m
+
 /-- **2-D `Decimate`**: `argmin` is the smallest-area choice among the candidates that have two
 neighbours (`none` = `break`); a bridge that would duplicate a segment is skipped. -/
 def decimate2 (argmin : List Nat → List Seg → Option Nat) (maxV : Nat) (m : List Seg) : Option (List Seg) :=
